@@ -134,6 +134,9 @@ Section LND.
     mkL (l_data s) (l_pend s) (l_tri s) (l_losses s) (l_subs s) (l_queue s) (l_tris s) (l_choose s) (l_err s) x.
   Definition failed (s : lnd) : bool := match l_err s with Some _ => true | None => false end.
 
+  (* a Python set given as a list: iterate every element once *)
+  Definition dedup (l : list simplex) : list simplex := fold_left (fun acc x => sadd x acc) l [].
+
   Definition wf_simplices (n : nat) (ss : list simplex) : bool :=
     forallb (fun sp => forallb (fun v => v <? n) sp) ss.
 
@@ -196,7 +199,7 @@ Section LND.
       let unbound := unbound_of s del in
       let s1 := set_subs (set_losses s (fold_left (fun a sp => sdel sp a) del (l_losses s)))
                          (fold_left (fun a sp => sdel sp a) del (l_subs s)) in
-      fold_left (add_one_simplex unbound) add s1.
+      fold_left (add_one_simplex unbound) (dedup add) s1.
 
     (* the [tri] property: build the triangulation from the data when there is none *)
     Definition touch (s : lnd) : lnd :=
@@ -232,7 +235,6 @@ Section LND.
       end.
 
     (* tell_pending(point, simplex=...) *)
-    Definition dedup (l : list simplex) : list simplex := fold_left (fun acc x => sadd x acc) l [].
     Definition tell_pending (s : lnd) (p : nat) (hint : option simplex) : lnd :=
       if failed s then s else
       if negb (e_inb E p) then s else
